@@ -90,6 +90,25 @@ class Outcome:
         return 'Outcome(%s, %r, %s)' % (self.kind, self.value, self.conds)
 
 
+class Lam:
+    """a lambda value: the node, the environment it closes over and the function it was written in"""
+    def __init__(self, node, env, func):
+        self.node, self.env, self.func = node, env, func
+        self.text = '<lambda>'
+
+    def __repr__(self):
+        return 'Lam(%s)' % norm(self.node)[:60]
+
+
+class Bound:
+    """a method of the package taken as a value (self.register_module): calling it runs the method"""
+    def __init__(self, f, recv, text):
+        self.f, self.recv, self.text = f, recv, text
+
+    def __repr__(self):
+        return 'Bound(%s)' % self.text
+
+
 def _copy_containers(v):
     """fresh list / dict objects (recursively) so that in-place updates made on one path are not seen by the next"""
     if type(v) is list:
@@ -569,8 +588,10 @@ class PE:
         if isinstance(e, ast.Dict):
             d = {}
             for k, v in zip(e.keys, e.values):
-                kk = self.expr(k, env, func, depth)
-                if not isinstance(kk, (str, int)):
+                kk = self.expr(k, env, func, depth) if k is not None else None
+                if isinstance(kk, (list, tuple)) and all(isinstance(x, (str, int, bool, type(None))) for x in kk):
+                    kk = tuple(kk)
+                elif not isinstance(kk, (str, int)):
                     return Opaque(norm(e))
                 d[kk] = self.expr(v, env, func, depth)
             return d
@@ -638,7 +659,7 @@ class PE:
         if isinstance(e, ast.Slice):
             return Opaque(norm(e))
         if isinstance(e, ast.Lambda):
-            return Opaque('<lambda>')
+            return Lam(e, env, func)
         if isinstance(e, ast.Starred):
             return self.expr(e.value, env, func, depth)
         raise Incomplete('expression outside the partial-evaluation fragment: %s' % norm(e)[:70])
@@ -652,7 +673,9 @@ class PE:
                 if isinstance(idx, P) and idx.is_const() and idx.const_value().denominator == 1:
                     idx = int(idx.const_value())
                 if isinstance(base, dict):
-                    if isinstance(idx, (str, int)):
+                    if isinstance(idx, list):
+                        idx = tuple(idx)
+                    if isinstance(idx, (str, int)) or (isinstance(idx, tuple) and all(isinstance(x, (str, int, bool, type(None))) for x in idx)):
                         if idx in base:
                             return base[idx]
                         raise Raised('KeyError(%r)' % (idx,))
@@ -689,6 +712,10 @@ class PE:
             r = self.attr_hook(self, e, key, env, func, depth)
             if r is not NotImplemented:
                 return r
+        if isinstance(e, ast.Attribute) and isinstance(e.value, ast.Name) and func.cls is not None and func.pos_params and e.value.id == func.pos_params[0]:
+            mf = self.model.find_method(func.cls, e.attr)
+            if mf is not None and not any(isinstance(d, ast.Name) and d.id == 'property' or isinstance(d, ast.Attribute) for d in mf.node.decorator_list):
+                return Bound(mf, env.get(e.value.id, Opaque('self')), key)        # a method taken as a value
         return P.atom(key)
 
     def _rebound(self, e, env):
@@ -799,6 +826,35 @@ class PE:
         return None
 
     # ------------------------------------------------------------------------------------------------ calls
+    def apply_value(self, fv, args, kw, depth):
+        """call a function value (Lam / Bound); NotImplemented when it is neither"""
+        if isinstance(fv, Lam) and depth < self.max_depth + 2:
+            a = fv.node.args
+            if a.vararg or a.kwarg or a.kwonlyargs or a.posonlyargs:
+                return NotImplemented
+            ps = [x.arg for x in a.args]
+            if len(args) > len(ps):
+                return NotImplemented
+            env2 = dict(fv.env)
+            env2.update(zip(ps, args))
+            for k, v in kw.items():
+                if k not in ps:
+                    return NotImplemented
+                env2[k] = v
+            for p_, d in zip(ps[len(ps) - len(a.defaults):], a.defaults):
+                if p_ not in dict(zip(ps, args)) and p_ not in kw:
+                    env2[p_] = self.expr(d, fv.env, fv.func, depth)
+            return self.expr(fv.node.body, env2, fv.func, depth + 1)
+        if isinstance(fv, Bound) and depth < self.max_depth:
+            f = fv.f
+            a = dict(zip(f.pos_params, [fv.recv] + list(args)))
+            a.update(kw)
+            kind, val, _ = self._run(f, a, None, depth + 1)
+            if kind == 'raise':
+                raise Raised(val)
+            return val
+        return NotImplemented
+
     def call(self, e, env, func, depth):
         name = self.model.resolve(func.mod, e.func) or dotted(e.func)
         args = []
@@ -825,9 +881,25 @@ class PE:
         ctext = resolved
         if ctext is None and isinstance(e.func, ast.Attribute):
             ctext = '%s.%s' % (self.loc_text(e.func.value, env, func, depth) if isinstance(e.func.value, (ast.Name, ast.Attribute, ast.Subscript, ast.Call)) else norm(e.func.value), e.func.attr)
-        self.calls.append((ctext or norm(e.func), args, kw, e))
-        if self.call_hook is not None:
-            r = self.call_hook(self, name, e, args, kw, env, func, depth)
+        # a function VALUE is called: a lambda (possibly picked from a table), or a method taken as a value
+        fv = None
+        if isinstance(e.func, ast.Name) and isinstance(env.get(e.func.id), (Lam, Bound)):
+            fv = env[e.func.id]
+        elif isinstance(e.func, (ast.Subscript, ast.Call, ast.Lambda, ast.IfExp)):
+            try:
+                fv = self.expr(e.func, env, func, depth)
+            except Incomplete:
+                fv = None
+        if isinstance(fv, Bound):
+            ctext = fv.text
+        if not isinstance(fv, Lam):
+            self.calls.append((ctext or norm(e.func), args, kw, e))
+        if self.call_hook is not None and not isinstance(fv, Lam):
+            r = self.call_hook(self, name if not isinstance(fv, Bound) else fv.f.qualname, e, args, kw, env, func, depth)
+            if r is not NotImplemented:
+                return r
+        if isinstance(fv, (Lam, Bound)):
+            r = self.apply_value(fv, args, kw, depth)
             if r is not NotImplemented:
                 return r
         # methods on known values
@@ -940,6 +1012,13 @@ class PE:
             if lt in self.atoms:
                 return self.atoms[lt]
             return P.atom('len(%s)' % (self.loc_text(e.args[0], env, func, depth) if isinstance(e.args[0], (ast.Name, ast.Attribute, ast.Subscript)) else norm(e.args[0])))
+        if n in ('bool', 'builtins.bool') and len(args) == 1:
+            v = args[0]
+            if isinstance(v, (bool, int, float, str, list, tuple, dict, type(None))) and not isinstance(v, P):
+                return bool(v)
+            if isinstance(v, P) and v.is_const():
+                return v.const_value() != 0
+            return self.truth(e.args[0], env, func, depth)
         if n in ('str', 'builtins.str'):
             return str(args[0]) if args and isinstance(args[0], (int, str)) else Opaque('<str>')
         if n in ('tuple', 'list', 'builtins.tuple', 'builtins.list') and args:
